@@ -24,7 +24,8 @@ import traceback
 from core import REPO, Ctx, ToolFailure, Violation, line
 
 PROP = "C20"
-EXTRA_LEAN_MODULES = ["DirectVerif.Props.C20Guards"]
+# (named GuardsC20, not C20Guards: core.py attributes build failures to modules by substring, and "Props.C20" is a prefix of the latter)
+EXTRA_LEAN_MODULES = ["DirectVerif.Props.GuardsC20"]
 MANIFEST = {
     "text": "Lean 4: executable model of OmegaConf's structured merge (typed schema generated from the live dataclasses), of the "
             "key loop of setup_common_environment, of the name arithmetic of load_model_from_name / "
@@ -231,6 +232,157 @@ def real_blocks(cfg, file_tree, fwd, bwd, bind_only: bool, engine=None):
     return out
 
 
+def dataset_failures(cfg, file_tree: dict) -> list[dict]:
+    """every dataset block builds its dataset object through the REAL `build_dataset_from_input` over an empty data root
+    (the way `direct train` calls it: transforms, the block, data_root, filenames_filter) — constructor guards, unknown
+    keyword arguments and missing mandatory values show up here without any data"""
+    import inspect
+
+    import direct.data.datasets as DS
+    from direct.data.datasets import build_dataset_from_input
+
+    root = _scratch() / "empty_root"
+    root.mkdir(exist_ok=True)
+    out, seen = [], set()
+    blocks = []
+    for sec in ("training", "validation"):
+        if isinstance(file_tree.get(sec), dict) and file_tree[sec].get("datasets"):
+            blocks += [(sec, i, b) for i, b in enumerate(cfg[sec].datasets)]
+    if isinstance(file_tree.get("inference"), dict) and file_tree["inference"].get("dataset"):
+        blocks.append(("inference", 0, cfg.inference.dataset))
+    for sec, i, b in blocks:
+        try:
+            key = (sec == "inference", repr({k: v for k, v in dict(b).items() if k not in ("transforms", "text_description", "filenames_lists")}))
+        except Exception:  # noqa: BLE001 — a MISSING value: let the real call report it
+            key = (sec, i)
+        if key in seen:
+            continue
+        seen.add(key)
+        try:
+            cls = getattr(DS, str(b.name) + "Dataset")
+            ps = inspect.signature(cls.__init__).parameters
+            extra = {}
+            if "data_root" in ps:
+                extra["data_root"] = root
+            if "filenames_filter" in ps:
+                extra["filenames_filter"] = []
+            build_dataset_from_input(transforms=None, dataset_config=b, **extra)
+        except (Exception, SystemExit) as e:
+            out.append({"stage": f"{sec}-dataset", "index": i, "error": _err(e), "message": str(e)[:300], "traceback": _tb(e)})
+    return out
+
+
+def value_failures(cfg, models: dict, file_tree: dict, engine_class=None, only_dispatch: bool = False) -> list[dict]:
+    """The property stated on the implementation for the *values* of a merged configuration (no model of ours involved):
+    every crop value is one `_compute_resolution` takes; every architecture / update-rule value takes, in the dispatch
+    of the real source, the branch of the enum member it names; no dispatch with a raising else falls through; every
+    attribute chain the package reads exists on the merged configuration; the optimizer is a class of torch.optim."""
+    from omegaconf import DictConfig, OmegaConf
+    from omegaconf.errors import ConfigAttributeError, ConfigKeyError
+
+    from core import REPO as repo
+    from translate.recipes.c20_guards import named_member, route_probes
+
+    info = _info()
+    out = []
+    # (a) consumers
+    for c in info.consumers:
+        if not c["verified"] or only_dispatch:
+            continue
+        sec = file_tree.get(c["needs"][0]) if isinstance(file_tree, dict) else None
+        if not (isinstance(sec, dict) and sec.get(c["needs"][1])):
+            continue
+        try:
+            v = _consumer_value(cfg, c["path"])
+        except Exception as e:  # noqa: BLE001
+            out.append({"stage": "consumer:" + ".".join(c["path"]), "error": _err(e), "message": str(e)[:200]})
+            continue
+        if not _consume_real(v):
+            node = file_tree
+            for p_ in c["path"]:
+                node = node.get(p_) if isinstance(node, dict) and p_ in node else "<default>"
+                if node == "<default>":
+                    break
+            out.append({"stage": "consumer:" + ".".join(c["path"]), "error": "ValueError", "from_default": node == "<default>",
+                        "message": f"{'.'.join(c['path'])} = {v!r} is rejected by {c['attr']}"})
+    # (b) dispatches
+    blocks = {"model": cfg.model}
+    for k, v in (cfg.additional_models or {}).items():
+        blocks[k] = v
+    for bname, block in blocks.items():
+        cls = models.get(bname)
+        if cls is None:
+            continue
+        import inspect
+
+        try:
+            probes = route_probes(cls, repo)
+            params = inspect.signature(cls.__init__).parameters
+        except Exception as e:  # noqa: BLE001
+            out.append({"stage": "dispatch-probe", "error": _err(e), "message": str(e)[:200]})
+            continue
+        for pr in probes:
+            if pr["param"] in block:
+                v = block[pr["param"]]
+            elif pr["param"] in params and params[pr["param"]].default is not inspect.Parameter.empty:
+                v = params[pr["param"]].default
+            else:
+                continue
+            if v is None or v == "":
+                continue
+            idx = pr["index"](v)
+            if pr["raises"]:
+                if idx == pr["n_tests"]:
+                    out.append({"stage": f"late-guard:{bname}.{pr['param']}", "error": "ValueError",
+                                "message": f"{bname}.{pr['param']} = {v!r} falls to the raising else of {pr['where']}"})
+                continue
+            m = named_member(pr["enum"], v)
+            want = pr["index"](m) if m is not None else None
+            if want != idx:
+                out.append({"stage": f"misroute:{bname}.{pr['param']}", "error": "Misroute",
+                            "message": f"{bname}.{pr['param']} = {v!r} names {m!r} but the dispatch at {pr['where']} takes branch "
+                                       f"{idx} of {pr['n_tests']} (the member itself takes {want})"})
+    # (c) attribute chains of the package on the real merged configuration
+    seen = set()
+    for rel, line_no, path, store, fn, called in ([] if only_dispatch else info.cfg_chains):
+        if store or not rel.startswith("direct/") or path in seen:
+            continue
+        seen.add(path)
+        node = cfg
+        for p_ in path:
+            if not isinstance(node, DictConfig):
+                break
+            try:
+                node = getattr(node, p_)
+            except (ConfigAttributeError, ConfigKeyError) as e:
+                out.append({"stage": "attribute-chain:" + ".".join(path), "error": _err(e),
+                            "message": f"{rel}:{line_no} reads cfg.{'.'.join(path)}: {str(e)[:120]}"})
+                break
+            except Exception:  # noqa: BLE001
+                break
+    if engine_class is not None:
+        for m_, c_, f_, where in info.engine_model_fields:
+            if any(b.__module__ == m_ and b.__name__ == c_ for b in engine_class.__mro__) and f_ not in cfg.model:
+                out.append({"stage": f"attribute-chain:model.{f_}", "error": "ConfigAttributeError",
+                            "message": f"{where} ({c_}) reads cfg.model.{f_}, which {cfg.model.model_name} does not declare"})
+    # (d) optimizer
+    if isinstance(file_tree.get("training"), dict) and file_tree["training"].get("datasets"):
+        from direct.utils import str_to_class
+
+        try:
+            str_to_class("torch.optim", cfg.training.optimizer)
+        except Exception as e:  # noqa: BLE001
+            out.append({"stage": "optimizer", "error": _err(e), "message": f"training.optimizer = {cfg.training.optimizer!r}"})
+    # de-duplicate (an engine field can be reached through several bases)
+    uniq, keys = [], set()
+    for f in out:
+        k = (f["stage"], f["error"])
+        if k not in keys:
+            keys.add(k)
+            uniq.append(f)
+    return uniq
+
+
 def real_verdict(path: pathlib.Path, file_tree: dict, instantiate: str | None = None) -> dict:
     """Everything the check wants to know about one configuration file, from the real code.
 
@@ -257,6 +409,14 @@ def real_verdict(path: pathlib.Path, file_tree: dict, instantiate: str | None = 
         res["answer"] = f"err 3 {_err(e)}"
         res["failures"].append({"stage": "engine", "error": _err(e), "message": str(e)[:300], "traceback": _tb(e)})
         return res
+    try:
+        res["failures"] += value_failures(cfg, models, file_tree, engine_class)
+    except Exception as e:  # noqa: BLE001
+        res["failures"].append({"stage": "value-oracle", "error": _err(e), "message": str(e)[:300], "traceback": _tb(e)})
+    try:
+        res["failures"] += dataset_failures(cfg, file_tree)
+    except Exception as e:  # noqa: BLE001
+        res["failures"].append({"stage": "dataset-oracle", "error": _err(e), "message": str(e)[:300], "traceback": _tb(e)})
     bound = real_blocks(cfg, file_tree, fwd, bwd, bind_only=True)
     if bound:
         sec, i, e = bound[0]
@@ -388,6 +548,10 @@ def real_defaults(device: str) -> list[dict]:
                 kwargs.update(forward_operator=TR.fft2, backward_operator=TR.ifft2)
             with torch.device(device):
                 model_cls(**kwargs)
+            vf = value_failures(OmegaConf.create({"model": cfg, "additional_models": None}), {"model": model_cls}, {},
+                                only_dispatch=True)
+            if vf:
+                rec.update(ok=False, error=vf[0]["error"], message=vf[0]["message"], value_stage=vf[0]["stage"])
         except (Exception, SystemExit) as e:
             rec.update(ok=False, error=_err(e), message=str(e)[:300], traceback=_tb(e))
         rec["declared_dataclass"] = "__dataclass_fields__" in vars(cls_cfg)
@@ -451,6 +615,35 @@ def real_defaults(device: str) -> list[dict]:
         except (Exception, SystemExit) as e:
             rec.update(ok=False, error=_err(e), message=str(e)[:300], traceback=_tb(e))
         out.append(rec)
+    # the defaults of the values that functions consume (validation.crop, training.loss.crop, inference.crop)
+    for c in info.consumers:
+        if not c["verified"]:
+            continue
+        rec = {"kind": "consumer", "config": ".".join(c["path"]), "ok": True}
+        try:
+            v = _consumer_value(_installed_cfg(), c["path"])
+            if not _consume_real(v):
+                raise ValueError(f"default {'.'.join(c['path'])} = {v!r} is rejected by {c['attr']}")
+        except (Exception, SystemExit) as e:
+            rec.update(ok=False, error=_err(e), message=str(e)[:300], traceback=_tb(e))
+        out.append(rec)
+    # dict_flatten must not merge two keys of the transform schema (it drops the group names)
+    rec = {"kind": "transforms-flatten", "config": "direct.data.datasets_config.TransformsConfig", "ok": True}
+    try:
+        cfg = remove_keys(OmegaConf.structured(DC.TransformsConfig), "masking")
+
+        def leaves(node):
+            n = 0
+            for _k, v in node.items():
+                n += leaves(v) if OmegaConf.is_dict(v) else 1
+            return n
+
+        if leaves(cfg) != len(dict_flatten(cfg)):
+            raise ValueError(f"dict_flatten keeps {len(dict_flatten(cfg))} of the {leaves(cfg)} leaf keys of TransformsConfig: "
+                             "two groups define the same key")
+    except (Exception, SystemExit) as e:
+        rec.update(ok=False, error=_err(e), message=str(e)[:300], traceback=_tb(e))
+    out.append(rec)
     # masking functions with the defaults of MaskingConfig
     for n, c in sorted(vars(S).items()):
         if inspect.isclass(c) and n.endswith("MaskFunc") and not n.startswith("Base") and not inspect.isabstract(c) \
@@ -873,7 +1066,7 @@ def phase3_cases(info, rng, thorough: bool) -> list:
         by_op: dict[str, list] = {}
         for c in cases:
             by_op.setdefault(c["op"], []).append(c)
-        caps = {"guard": 220, "chain": 70, "binds": 24, "kwpol": 30}
+        caps = {"guard": 170, "chain": 60, "binds": 20, "kwpol": 24}
         for op, cs in by_op.items():
             if op in caps and len(cs) > caps[op]:
                 # keep every bucket represented, then fill up at random
@@ -1494,6 +1687,17 @@ def _failure_key(rel: str, f: dict) -> str:
     fns = f.get("functions") or []
     if f["stage"].endswith("-block") and f["error"] == "KeyError" and "__load_masks" in " ".join(fns) + f.get("traceback", ""):
         return "code:subsample.CalgaryCampinasMaskFunc:KeyError-float-acceleration"
+    if f["stage"].startswith("consumer:") and f.get("from_default"):
+        path = f["stage"][len("consumer:"):].split(".")
+        owner = {"validation": "ValidationConfig", "inference": "InferenceConfig", "training": "LossConfig"}.get(path[0], path[0])
+        return f"default:direct.config.defaults.{owner}.{path[-1]}:rejected-by-_compute_resolution"
+    if f["stage"].startswith("misroute:"):
+        return f"misroute:{rel}:{f['stage'][len('misroute:'):]}"
+    if f["stage"].startswith("consumer:"):
+        # the same rejected value in many files is one finding
+        return f"{f['stage']}:{f.get('message', '').split(' = ')[-1].split(' is rejected')[0]}:rejected"
+    if f["stage"].startswith("attribute-chain:") or f["stage"].startswith("late-guard:"):
+        return "code:" + f["stage"]
     return f"yaml:{rel}:{f['stage']}-{f['error']}"
 
 
@@ -1561,6 +1765,12 @@ def oracle(ctx: Ctx, deep: bool = False):
         if not rec["ok"]:
             if rec["kind"] == "masking" and rec["error"] == "KeyError" and "__load_masks" in rec.get("traceback", ""):
                 key = "code:subsample.CalgaryCampinasMaskFunc:KeyError-float-acceleration"
+            elif rec["kind"] == "consumer":
+                path = rec["config"].split(".")
+                owner = {"validation": "ValidationConfig", "inference": "InferenceConfig", "training": "LossConfig"}.get(path[0], path[0])
+                key = f"default:direct.config.defaults.{owner}.{path[-1]}:rejected-by-_compute_resolution"
+            elif rec["kind"] == "model" and str(rec.get("value_stage", "")).startswith("misroute:"):
+                key = f"misroute:default:{rec['config'].rsplit('.', 1)[-1]}.{rec['value_stage'].split('.')[-1]}"
             elif rec["kind"] == "model":
                 key = f"config:{rec['config']}:default-init-{rec['error']}"
             else:
